@@ -11,6 +11,7 @@ import hypothesis.strategies as st
 from pbt import treemodel
 
 LEVEL_NAMES = ['class', 'subclass', 'supertype', 'cluster', 'subcluster']
+PREFIX = {'class': 'cs', 'subclass': 'sc', 'supertype': 'st', 'cluster': 'cl', 'subcluster': 'sb'}
 
 # names that need CSV quoting / look numeric / unicode
 ODD_CHARS = [',', '"', "'", ' ', ';', '=', '(', ')', '[', ']', 'é', 'β', '/', '#', ':']
@@ -18,7 +19,7 @@ ODD_CHARS = [',', '"', "'", ' ', ';', '=', '(', ')', '[', ']', 'é', 'β', '/', 
 
 @st.composite
 def node_namer(draw, allow_odd=True):
-    scheme = draw(st.sampled_from(['plain', 'plain', 'scrambled', 'numeric', 'odd'] if allow_odd
+    scheme = draw(st.sampled_from(['plain', 'plain', 'scrambled', 'numeric', 'odd', 'shared'] if allow_odd
                                   else ['plain', 'scrambled', 'numeric']))
     salt = draw(st.integers(0, 96))
     odd = draw(st.sampled_from(ODD_CHARS)) if scheme == 'odd' else ''
@@ -27,15 +28,19 @@ def node_namer(draw, allow_odd=True):
 
 def make_name(namer, level_idx, idx):
     s = namer['scheme']
+    pre = PREFIX[namer['levels'][level_idx]] if 'levels' in namer else f'L{level_idx}'
     if s == 'plain':
-        return f'{LEVEL_NAMES[level_idx][:2]}{idx:02d}'
+        return f'{pre}{idx:02d}'
+    if s == 'shared':
+        # the same names occur at every level (e.g. a subclass and its only cluster share a name)
+        return f'n{(idx * 7 + namer["salt"]) % 97:02d}'
     if s == 'scrambled':
-        return f'{LEVEL_NAMES[level_idx][:2]}{(idx * 7 + namer["salt"]) % 97:02d}'
+        return f'{pre}{(idx * 7 + namer["salt"]) % 97:02d}'
     if s == 'numeric':
         # numeric looking; unique per level; '10' < '2' alphabetically
         return str((idx * 7 + namer['salt']) % 97 + 100 * level_idx)
     if s == 'odd':
-        return f'{LEVEL_NAMES[level_idx][:1]}{namer["odd"]}{(idx * 7 + namer["salt"]) % 97}'
+        return f'{pre}{namer["odd"]}{(idx * 7 + namer["salt"]) % 97}'
     raise ValueError(s)
 
 
@@ -65,6 +70,7 @@ def trees(draw, max_levels=4, max_leaves=12, min_levels=1, allow_odd=True,
         lo = w
     namer = draw(node_namer(allow_odd=allow_odd))
     levels = LEVEL_NAMES[-n_levels:] if draw(st.booleans()) else LEVEL_NAMES[:n_levels]
+    namer = dict(namer, levels=list(levels))
     data = {'hierarchy': list(levels)}
     names = [[make_name(namer, li, i) for i in range(w)] for li, w in enumerate(widths)]
     for li in range(n_levels):
